@@ -180,6 +180,13 @@ MEM_GB = int(os.environ.get('VERIF_KANI_MEM_GB', '10'))
 CHUNK = int(os.environ.get('VERIF_KANI_CHUNK', '10'))
 
 
+def _limit_memory_cex():
+    """the counterexample re-run (one harness, trace generation) needs more memory than the verification run"""
+    import resource
+    lim = max(MEM_GB, int(os.environ.get('VERIF_KANI_CEX_MEM_GB', '24'))) * 1024 ** 3
+    resource.setrlimit(resource.RLIMIT_AS, (lim, lim))
+
+
 def _limit_memory():
     """address-space cap per process (cargo, kani-driver, each cbmc): a harness whose SAT instance explodes dies
     alone (reported INCONCLUSIVE) instead of taking the machine down (cbmc instances of 20-50 GB were observed)"""
@@ -219,7 +226,7 @@ def counterexample(harness, repo='/repo', harness_timeout=900):
            '--concrete-playback=print', '--harness-timeout', f'{harness_timeout}s',
            '--output-format', 'terse', '--exact', '--harness', full_name(harness) or harness]
     try:
-        p = subprocess.run(cmd, cwd=repo, env=env(), capture_output=True, text=True, timeout=harness_timeout + 600, preexec_fn=_limit_memory)
+        p = subprocess.run(cmd, cwd=repo, env=env(), capture_output=True, text=True, timeout=harness_timeout + 600, preexec_fn=_limit_memory_cex)
     except subprocess.TimeoutExpired:
         return []
     out = p.stdout
